@@ -107,6 +107,10 @@ def build_inputs(tier):
     for s in base:
         for lay in mutate.LAYOUTS:
             cases.append(("base:" + lay, mutate.layout(s, lay, r)))
+    # texts without final newline whose last physical line LOOKS like a comment or is blank
+    for s in ['x = """\n# not a comment"""', "x = 1 \\\n# c", "x \\\n#", "x \\\n   ", 's = \'\'\'a\n#b\'\'\'', "y = (1,\n# c\n2)", "x = 1\n# c", "x = 1\n   # c", "# only", "if a:\n  b\n  # c", "x = 1\n\\\n# c", "f'''{a}\n# {b}'''"]:
+        cases.append(("final-line", s))
+        cases.append(("final-line", "p = 0\n" + s))
     for i in range(300 * N):
         g = pyprog.gen_program(r, fstrings=True, maxdepth=3, nstmts=r.randint(1, 3))
         if g:
@@ -174,7 +178,7 @@ def run(rep, tier, pool, variants=("shipped",)):
             rep.known("KF-C08-lone-cr", f"lone CR: {o2.get('kind') if isinstance(o2, dict) else o2} on {short(src_min, 30)}")
             continue
         _ls = src_min.split("\n")
-        if isinstance(o2, dict) and o2.get("kind") in ("logical-line-without-newline", "newline-without-significant-token") and len(_ls) >= 2 and (_ls[-1].strip().startswith("#") or not _ls[-1].strip()) and _ls[-2].rstrip("\r").endswith("\\"):
-            rep.known("KF-C08-continuation-into-final-comment", f"a backslash continuation runs into a final comment/blank line without newline: NEWLINE missing or without a significant token: {short(src_min, 30)}")
+        if isinstance(o2, dict) and o2.get("kind") == "newline-without-significant-token" and len(_ls) >= 2 and (not _ls[-1].strip() or _ls[-1].strip().startswith("#")) and _ls[-1] != "" and _ls[-2].rstrip("\r").endswith("\\"):
+            rep.known("KF-C08-continuation-into-final-comment", f"a backslash continuation runs into a final blank/comment line without newline: NEWLINE without a significant token: {short(src_min, 30)}")
             continue
         rep.violation(f"C08 {o.get('kind')}: {short(o2, 140)} on {short(src_min, 60)}", {"property": "C08", "input": src_min, "original_input": src if len(src) < 5000 else src[:5000], "observed": o2, "oracle": "tiling predicate vs source text"})
